@@ -307,3 +307,21 @@ Definition ok_merge2 (c : leaf * leaf * option (option string * string * list st
   | _, _ => false
   end.
 Definition mismatches_merge2 := mismatches ok_merge2.
+
+(** C20: observed = the generate section (and skip flags) the tool resolved for a list of
+    targets, read from --output-config (None = rejected). *)
+From V Require Import Model.Cli.
+Definition flags_eqb (a b : out_flags) : bool := Bool.eqb (skip_fmt a) (skip_fmt b) && Bool.eqb (skip_prune a) (skip_prune b).
+Definition ok_targets (c : list string * option (gen * out_flags)) : bool :=
+  let '(ts, obs) := c in
+  opt_eqb (fun a b => gen_eqb (fst a) (fst b) && flags_eqb (snd a) (snd b))
+          (generation_targets ts (gen_zero, {| skip_fmt := false; skip_prune := false |})) obs.
+Definition mismatches_targets := mismatches ok_targets.
+
+(** new-style resolution: observed = (package, generate section, initialism-overrides) after
+    --output-config, or None when the tool exits non-zero *)
+Definition ok_resolve (c : @config unit * option (string * gen * bool)) : bool :=
+  let '(cfg, obs) := c in
+  opt_eqb (fun a b => String.eqb (fst (fst a)) (fst (fst b)) && gen_eqb (snd (fst a)) (snd (fst b)) && Bool.eqb (snd a) (snd b))
+          (option_map (fun r => (c_package r, c_gen r, c_initialism r)) (resolve_new cfg)) obs.
+Definition mismatches_resolve := mismatches ok_resolve.
